@@ -142,7 +142,7 @@ func genValid(t *rapid.T, label, prec string, ex lpgen.Excl) docLine {
 	p, st := genBase(t, label, prec, ex)
 	p.HasTime = rapid.IntRange(0, 9).Draw(t, label+"_hasTime") != 0
 	kind := "valid"
-	if rapid.IntRange(0, 79).Draw(t, label+"_limit") == 0 {
+	if rapid.IntRange(0, 99).Draw(t, label+"_limit") == 37 {
 		// exactly at the key-length limit: plain field key, padded tag value
 		p.Fields = []lpgen.Field{{K: "fld", V: p.Fields[0].V}}
 		pad := lpgen.MaxKeyLength - lpgen.KeySize(p) - len(",pad=")
@@ -158,7 +158,7 @@ var mutations = []string{
 	"no-fields", "no-fields-with-timestamp", "duplicate-tag", "empty-tag-value", "tag-without-equals", "empty-tag-key",
 	"tag-value-unescaped-equals", "reserved-tag-key", "empty-measurement", "field-without-value", "field-without-equals",
 	"bad-boolean", "bad-number", "unquoted-string", "garbage-after-timestamp", "bad-timestamp", "timestamp-out-of-range",
-	"key-too-long", "unbalanced-quote",
+	"key-too-long", "unbalanced-quote", "fields-without-comma",
 }
 
 // renderTags returns the rendered ",k=v" pieces in the style's order.
@@ -273,6 +273,8 @@ func genDamaged(t *rapid.T, label, prec string, ex lpgen.Excl, last bool) docLin
 		txt = lpgen.Render(q, lpgen.PlainStyle(q), prec)
 	case "unbalanced-quote":
 		txt = join(tags, fields+",zq=\"abc", ts)
+	case "fields-without-comma":
+		txt = join(tags, fields+",zq=\"s\"zr="+rapid.SampledFrom([]string{"2", "\"x\"", "t"}).Draw(t, label+"_v"), ts)
 	}
 	named := txt
 	// leading blanks are not part of the named text; only where they cannot disturb the line splitter
@@ -291,9 +293,14 @@ func genComment(t *rapid.T, label string) docLine {
 		sb.WriteString(rapid.SampledFrom([]string{"a", " ", "=", ",", "#", "x=1", "cpu value=1", "\"", "\\", "é", "1"}).Draw(t, fmt.Sprintf("%s_%d", label, i)))
 	}
 	s := sb.String()
-	if strings.ContainsAny(s, "\"\\") && ev.KnownOpen("C12", kComment) {
+	if strings.Contains(s, "\\") {
+		// documented backslash limitation: a backslash escapes what follows it, also the newline
+		rec.Class("excluded_documented:comment-with-backslash")
+		s = strings.ReplaceAll(s, "\\", "/")
+	}
+	if strings.Contains(s, "\"") && ev.KnownOpen("C12", kComment) {
 		rec.ExcludedKnown(kComment)
-		s = strings.NewReplacer("\"", "'", "\\", "/").Replace(s)
+		s = strings.ReplaceAll(s, "\"", "'")
 	}
 	return docLine{kind: "comment", text: s}
 }
@@ -359,10 +366,10 @@ func propNearValid(t *rapid.T) {
 	switch {
 	case single:
 		rec.Class(test + ":doc=single-mutation-line")
-		rec.NonTrivial(test + "|" + prec + "|" + input)
+		nonTrivial(test + "|" + prec + "|" + input)
 	case nValid > 0 && nDamaged > 0:
 		rec.Class(test + ":doc=accepted-and-rejected")
-		rec.NonTrivial(test + "|" + prec + "|" + input)
+		nonTrivial(test + "|" + prec + "|" + input)
 	case nDamaged == 0:
 		rec.Class(test + ":doc=all-accepted")
 	default:
@@ -484,7 +491,7 @@ func propFragmentSoup(t *rapid.T) {
 		rec.Class(test + ":nothing-to-parse")
 	}
 	if o.points > 0 || o.named > 0 {
-		rec.NonTrivial(test + "|" + prec + "|" + string(data))
+		nonTrivial(test + "|" + prec + "|" + string(data))
 	}
 	if o.key != "" {
 		rec.Fail(t, test, o.key, o.det, map[string]any{"precision": prec, "input": string(data), "input_hex": fmt.Sprintf("%x", data)})
